@@ -481,7 +481,7 @@ def c03_groups(tier, tag='C03'):
     gs = [g for g in enc_groups(tag) if 'KeyGen' not in g.name]
     for n in ([1, 2, 3, 4, 5, 6, 7, 8, 9, 11] if tier == 'quick' else list(range(1, 18)) + [23, 31, 32]):
         gs.append(Group('%s.pairing.bounded.n=%d' % (tag, n), 'c03_encrypt.c', 'h_b_pairing', extract=[(LF, 'lweSymEncrypt', S_), (LF, 'lwePhase')],
-                        defines={'H_PAIRING': None, 'VERIF_BN': n}, unwind=n + 2, bounded=True, backend='z3', timeout=1200, instance={'n': n}))
+                        defines={'H_PAIRING': None, 'VERIF_BN': n}, unwind=n + 2, bounded=True, backend='z3', timeout=1200, instance={'n': n}, replay='pairing'))
     Ms = [2, 3, 4, 5, 7, 8, 16, 1000, 1024, 2048] if tier == 'quick' else sorted(set(C13_LISTED[:-1] + list(range(2, 65)) + [100, 255, 256, 257, 4095, 4097, 32767]))
     for M in Ms:
         gs.append(Group('%s.decode.M=%d' % (tag, M), 'c03_encrypt.c', 'h_decode', extract=[(NF, 'modSwitchToTorus32'), (NF, 'approxPhase')],
@@ -492,7 +492,15 @@ def c03_groups(tier, tag='C03'):
 
 
 def c07_groups(tier, tag='C07'):
-    return enc_groups(tag)
+    gs = enc_groups(tag)
+    gs.append(Group(tag + '.tfhe_createLweBootstrappingKey', 'c03_encrypt.c', 'h_createBootstrappingKey', extract=[(BN_, 'tfhe_createLweBootstrappingKey')],
+                    loops=True, defines={'H_BKCREATE': None}))
+    gs.append(Group(tag + '.tGswSymEncryptInt', 'c03_encrypt.c', 'h_tGswSymEncryptInt', extract=[(TG, 'tGswSymEncryptInt')], defines={'H_TGSWENC': None}))
+    gs.append(Group(tag + '.tGswEncryptZero', 'c03_encrypt.c', 'h_tGswEncryptZero', extract=[(TG, 'tGswEncryptZero')], loops=True, defines={'H_TGSWZERO': None}))
+    for A in ['0x1p-25', '7.18e-9']:
+        gs.append(Group('%s.tLweSymEncryptZero.alpha=%s' % (tag, A), 'c03_encrypt.c', 'h_tLweSymEncryptZero', extract=[(TL, 'tLweSymEncryptZero')],
+                        loops=True, defines={'H_TLWEZERO': None, 'VERIF_ALPHA': A}, instance={'alpha': A}))
+    return gs
 
 
 TGF = 'tgsw-fft-operations.cpp'
@@ -687,7 +695,7 @@ PROPS = {
                        '(moments, uniformity, independence, seeding reproducibility) is statistical and NOT decided.',
         'assumptions': STD_ASSUME + [
             'libstdc++ normal_distribution / uniform_int_distribution / default_random_engine: assumed contract (declared-only draws)',
-            'no moment, tail, balance, independence or re-seeding claim is decided; TLWE/TGSW rows, bootstrapping-key and key-switching-key rows are not under contract yet',
+            'no moment, tail, balance, independence or re-seeding claim is decided (seed S20 -- a sampler object that keeps a cached draw across a re-seed -- is not detected); bootstrapping-key rows: plumbing down to tLweSymEncryptZero(row, alpha_min of the accumulator parameters); the key-switching-key rows (lweCreateKeySwitchKey: noise vector, recentring, row index) are not under contract yet',
             'the variance annotation alpha^2 is proved for the enumerated alphas (IEEE product, see DESIGN 8.2)',
         ],
         'trusted': [],
